@@ -226,7 +226,7 @@ fn generate(rng: &mut Rng) -> C15Sc {
         net: NetScenario {
             seed: rng.next_u64(),
             // a short deadline makes the listener give up on silent clients inside the history (only when no valid header trickles in)
-            cfg: NetCfg { secret, expiry: None, max_frame: None, timeout_ns: if !slow_headers && rng.chance(1, 2) { secs(2) } else { secs(30) }, proxy, limiter, use_start: rng.chance(1, 4), agones: false, secret_source: None },
+            cfg: NetCfg { secret, expiry: None, max_frame: None, timeout_ns: if !slow_headers && rng.chance(1, 2) { secs(2) } else { secs(30) }, proxy, limiter, use_start: rng.chance(1, 4), agones: false, secret_source: None, localization_from_services: false },
             wall: Default::default(),
             services,
             clients,
